@@ -135,6 +135,10 @@ def build_network(start, var, cls=RecordingNetwork):
             evse = EVSE(sid(s), max_rate=32)
         elif k == "deadband":
             evse = DeadbandEVSE(sid(s), deadband_end=6, max_rate=32)
+        elif k == "finiteB":
+            evse = FiniteRatesEVSE(sid(s), [16, 32])
+        elif k == "finiteC":
+            evse = FiniteRatesEVSE(sid(s), [6, 12, 18, 24, 30])
         else:
             evse = FiniteRatesEVSE(sid(s), [32, 8, 0, 16, 24])
         net.register_evse(evse, volt[s - 1], [30, -90, 150][(s - 1) % 3] if var.constraints == "3ph" else 0)
